@@ -31,6 +31,7 @@ type c02Cfg struct {
 	Lapsers     int   // provers that join the file right after it is posted and never prove again (they get dropped at reward blocks)
 	OwnerProves bool  // the honest prover is the account that owns (posted and pays for) the file
 	ProofType   int64 // proof_type of the posted files
+	Batched     bool  // every proof travels in one transaction with a proof for a file that is gone
 	Misses      int64 // the MissesToBurn parameter (0: leave the default); the property allows an honest prover no burn under any setting
 	PayOnce     int64 // > 0: the main file is paid once and expires this many blocks after its start (the chain demands >= 1 day)
 }
@@ -64,6 +65,7 @@ func c02Content(n int64) []byte {
 func c02Run(c *chain.Chain, cfg c02Cfg) (out c02Out) {
 	w := newStorWorld(c, cfg.S)
 	w.proofType = cfg.ProofType
+	w.batched = cfg.Batched
 	defer func() { out.trace = w.trace }()
 	owner, prover := chain.Acc(0), chain.Acc(1)
 	if cfg.OwnerProves {
@@ -253,6 +255,7 @@ func genC02(rt *rapid.T) c02Cfg {
 		cfg.Size = 1
 	}
 	cfg.OwnerProves = rapid.IntRange(0, 3).Draw(rt, "ownerProves") == 0
+	cfg.Batched = rapid.IntRange(0, 3).Draw(rt, "batchedProofs") == 0
 	cfg.ProofType = rapid.SampledFrom([]int64{0, 0, 0, 1, 2, -1, math.MaxInt64}).Draw(rt, "proofType")
 	cfg.Misses = rapid.SampledFrom([]int64{0, 0, 1, 1, 2, 3, 5}).Draw(rt, "missesToBurn")
 	cfg.W = rapid.Int64Range(2, 24).Draw(rt, "proofWindow")
